@@ -4202,9 +4202,12 @@ static int
 strtoint(const char *const str)
 {
 	char *endptr;
-	const int r = strtol(str, &endptr, 10);
+	const long r = strtol(str, &endptr, 10);
 	if (*endptr) return -1;
-	return r;
+	/* saturate instead of wrapping (long is wider than int on LP64) */
+	if (r > INT_MAX) return INT_MAX;
+	if (r < INT_MIN) return INT_MIN;
+	return (int)r;
 }
 
 /* Parse a number of seconds into a timeval; return -1 on error. */
